@@ -23,6 +23,7 @@ EXPLANATION = (
     "load_with_redirect_count (T2), dominance of ensure_package over the unwrap-ing bookkeeping (T5), argument provenance of the "
     "inserted redirect and of the attribution calls (T4)."
 )
+EXPLANATION += " " + 'Plus: dispatch table of maybe_mark_dep, result table of JsrPackageVersionInfo::export for string-valued exports, lockfile-seeded redirects never keyed by jsr:/npm:/file: specifiers.'
 NOT_DECIDED = "URL <-> name@version round trip (string arithmetic in recommended_registry_package_url(_to_nv)); exports-map semantics"
 CONFIGS = ["default", "nofastcheck"]  # thorough tier also analyses the build without fast_check / symbols
 ASSUMPTIONS = []
